@@ -329,6 +329,14 @@ func msgScenario(c *Ctx, mm msgMatcher, mc msgCase) *Scenario {
 				}
 				return symInt(idx), true
 			}
+		case callee == "strings.EqualFold" && len(args) == 2 && args[0].K == "str" && args[0].Known && args[1].K == "str" && args[1].Known:
+			return symBool(strings.EqualFold(args[0].S, args[1].S)), true
+		case callee == "bytes.Compare" && len(args) == 2:
+			a, ok1 := concreteBytes(st, args[0])
+			b, ok2 := concreteBytes(st, args[1])
+			if ok1 && ok2 {
+				return symInt(int64(bytes.Compare(a, b))), true
+			}
 		case callee == "bytes.Equal" && len(args) == 2:
 			a, ok1 := concreteBytes(st, args[0])
 			b, ok2 := concreteBytes(st, args[1])
